@@ -108,7 +108,10 @@ func c08RunSeq(c *sim.Case, chains []c08Chain, allowUnmatched bool, reqs []map[s
 	ctx, cancel := context.WithCancel(context.Background())
 	defer cancel()
 	tls := internal.NewTLSConfigPool(ctx)
-	f := server.NewExtAuthZFilter(cfg, tls, oidc.NewJWKSProvider(cfg, tls), fac)
+	// as in cmd/main.go the filter is built around the configuration object before that is filled in
+	shell, fill := sim.LateConfig(cfg)
+	f := server.NewExtAuthZFilter(shell, tls, oidc.NewJWKSProvider(shell, tls), fac)
+	fill()
 	for ri, headers := range reqs {
 		before := map[string]int{}
 		for id, st := range fac.stores {
